@@ -125,21 +125,18 @@ Section AccStage.
     - intros xs st H. exact H.
   Qed.
 
-  Lemma acc_respects_rf : respects_rf (accumulate_push accf outf p) AccInv.
-  Proof. split; [exact acc_respects|]. intros xs st H. exact H. Qed.
 End AccStage.
 
 (* ------------------------------------------------------------------ for_each.rs / vec_push.rs: terminal base case *)
 
 Definition FEInv {A} (ph : phase A) (s : list A) : Prop := rev s = ph_items ph.
 
-Lemma for_each_respects_rf : forall A, respects_rf (for_each_push A) (@FEInv A).
+Lemma for_each_respects : forall A, respects (for_each_push A) (@FEInv A).
 Proof.
-  intros A. split; [split|].
+  intros A. split.
   - intros xs b s H. exact H.
   - intros xs a s H. eexists. split; [reflexivity|]. unfold FEInv in *. cbn in *. rewrite H. reflexivity.
   - intros xs s H. cbn. unfold FEInv in *. destruct H as [H|[b H]]; exact H.
-  - intros xs s H. exact H.
   - intros xs s H. exact H.
 Qed.
 
@@ -435,32 +432,43 @@ Section PersistStage.
   Qed.
 End PersistStage.
 
-(* ------------------------------------------------------------------ resolve_futures.rs (no subgraph waker) as a stage *)
+(* ------------------------------------------------------------------ resolve_futures.rs as a stage (both modes) *)
 
 Section ResolveStage.
-  Context {B : Type} (p : push B) (Inv : phase B -> St p -> Prop).
-  Hypothesis HP : respects_rf p Inv.      (* empty_ready polls poll_ready between poll_finalize calls *)
+  Context {B : Type} (w : bool) (p : push B) (Inv : phase B -> St p -> Prop).
+  Hypothesis HP : respects p Inv.
 
-  (* outputs in the order the futures were sent *)
+  (* outputs in the order the futures were sent; with a subgraph waker ([w = true]) futures
+     that are still pending when finalization begins stay queued for a later tick *)
   Definition rf_ref (xs : list (@fut B)) : list B := map fst xs.
 
-  Definition RInv (ph : phase (@fut B)) (st : rf_st p) : Prop :=
+  Definition RInv (ph : phase (@fut B)) (st : bool * rf_st p) : Prop :=
+    let q := fst (snd st) in let s := snd (snd st) in
     match ph with
-    | Run xs b => exists ys b0, ys ++ map fst (fst st) = rf_ref xs /\ Inv (Run ys b0) (snd st) /\
-                                (b = true -> fst st = [] /\ b0 = true)
-    | Fing xs => (exists ys b0, ys ++ map fst (fst st) = rf_ref xs /\ Inv (Run ys b0) (snd st)) \/
-                 (fst st = [] /\ Inv (Fing (rf_ref xs)) (snd st))
-    | Fini xs => fst st = [] /\ Inv (Fini (rf_ref xs)) (snd st)
+    | Run xs b => fst st = false /\
+                  exists ys b0, ys ++ map fst q = rf_ref xs /\ Inv (Run ys b0) s /\
+                                (b = true -> b0 = true /\ (w = false -> q = []))
+    | Fing xs => (fst st = false /\ exists ys b0, ys ++ map fst q = rf_ref xs /\ Inv (Run ys b0) s) \/
+                 (fst st = true /\ exists ys, ys ++ map fst q = rf_ref xs /\ Inv (Fing ys) s /\ (w = false -> q = []))
+    | Fini xs => fst st = true /\ exists ys, ys ++ map fst q = rf_ref xs /\ Inv (Fini ys) s /\ (w = false -> q = [])
     end.
+
+  Lemma q_poll_vals : forall q : list (@fut B),
+      match q_poll q with
+      | (Some (Some out), q') => map fst q = out :: map fst q'
+      | (Some None, q') => q = [] /\ q' = []
+      | (None, q') => map fst q' = map fst q
+      end.
+  Proof. destruct q as [|[v [|n]] r]; cbn; auto. Qed.
 
   Lemma rf_empty_ok : forall fuel q ys b0 (s : St p),
       Inv (Run ys b0) s ->
-      match rf_empty p false fuel q s with
+      match rf_empty p w fuel q s with
       | (r, (q', s')) => exists ys' b1, ys' ++ map fst q' = ys ++ map fst q /\ Inv (Run ys' b1) s' /\
-                                        (r = true -> q' = [] /\ b1 = true)
+                                        (r = true -> b1 = true /\ (w = false -> q' = []))
       end.
   Proof.
-    destruct HP as [[Hr Hs Hf Hw] Hrf].
+    destruct HP as [Hr Hs Hf Hw].
     induction fuel as [|k IH]; intros q ys b0 s H; cbn [rf_empty].
     - exists ys, b0. repeat split; auto; discriminate.
     - pose proof (Hr _ _ _ H) as H1. destruct (ready p s) as [r s1]. cbn [fst snd] in H1. destruct r.
@@ -468,41 +476,59 @@ Section ResolveStage.
         * exists ys, true. repeat split; auto.
         * destruct n as [|n].
           -- destruct (Hs _ v _ H1) as [s2 [E H2]]. rewrite E. specialize (IH q' (ys ++ [v]) false s2 H2).
-             destruct (rf_empty p false k q' s2) as [r [q2 s3]]. destruct IH as [ys' [b1 [E1 [I1 R1]]]].
+             destruct (rf_empty p w k q' s2) as [r [q2 s3]]. destruct IH as [ys' [b1 [E1 [I1 R1]]]].
              exists ys', b1. cbn [map fst]. rewrite E1, <- app_assoc. repeat split; auto; apply R1; auto.
-          -- exists ys, true. cbn [map fst]. repeat split; auto; discriminate.
+          -- exists ys, true. cbn [map fst]. repeat split; auto. intro Ew. congruence.
       + exists ys, false. repeat split; auto; discriminate.
   Qed.
 
-  Lemma resolve_respects : respects (resolve_push p false) RInv.
+  Lemma resolve_respects : respects (resolve_push p w) RInv.
   Proof.
-    pose proof HP as HP'. destruct HP' as [[Hr Hs Hf Hw] Hrf]. split.
-    - intros xs b [q s] [ys [b0 [E [I R]]]]. cbn [fst snd] in *. cbn [ready resolve_push fst snd].
+    pose proof HP as HP'. destruct HP' as [Hr Hs Hf Hw]. split.
+    - intros xs b [fl [q s]] [F [ys [b0 [E [I R]]]]]. cbn [fst snd] in *. cbn [ready resolve_push fst snd].
       pose proof (@rf_empty_ok (S (length q)) q ys b0 s I) as Q.
-      destruct (rf_empty p false (S (length q)) q s) as [r [q' s']]. destruct Q as [ys' [b1 [E1 [I1 R1]]]].
-      cbn [fst snd RInv]. exists ys', b1. repeat split; auto; try apply R1; auto. congruence.
-    - intros xs f [q s] [ys [b0 [E [I R]]]]. cbn [fst snd] in *. destruct (R eq_refl) as [N1 N2]. subst q b0.
-      cbn [send resolve_push fst snd app]. eexists. split; [reflexivity|]. cbn [RInv fst snd map].
-      cbn [map app] in E. rewrite app_nil_r in E. subst ys. exists (rf_ref xs), false.
-      unfold rf_ref. rewrite map_app. cbn [map]. repeat split; auto; try discriminate.
-    - intros xs [q s] H. cbn [fin resolve_push fst snd].
-      assert (CASES : (exists ys b0, ys ++ map fst q = rf_ref xs /\ Inv (Run ys b0) s) \/
-                      (q = [] /\ Inv (Fing (rf_ref xs)) s)).
-      { destruct H as [[H|H]|[b [ys [b0 [E [I _]]]]]]; cbn [fst snd] in *; [left; exact H|right; exact H|left; eauto]. }
-      destruct CASES as [[ys [b0 [E I]]]|[N I]].
+      destruct (rf_empty p w (S (length q)) q s) as [r [q' s']]. destruct Q as [ys' [b1 [E1 [I1 R1]]]].
+      cbn [fst snd RInv]. split; auto. exists ys', b1. repeat split; auto; try apply R1; auto. congruence.
+    - intros xs f [fl [q s]] [F [ys [b0 [E [I R]]]]]. cbn [fst snd] in *. destruct (R eq_refl) as [N1 N2]. subst b0.
+      cbn [send resolve_push fst snd]. unfold rf_send. cbn [fst snd]. destruct w.
+      + (* subgraph waker: the queue is polled once *)
+        pose proof (q_poll_vals (q ++ [f])) as P. rewrite map_app in P. change (map fst [f]) with [fst f] in P.
+        assert (X : rf_ref (xs ++ [f]) = ys ++ map fst q ++ [fst f]).
+        { transitivity ((ys ++ map fst q) ++ [fst f]); [|rewrite <- app_assoc; reflexivity].
+          rewrite E. unfold rf_ref. rewrite map_app. reflexivity. }
+        destruct (q_poll (q ++ [f])) as [[[out|]|] q'].
+        * destruct (Hs _ out _ I) as [s2 [Q J]]. rewrite Q. eexists. split; [reflexivity|].
+          cbn [RInv fst snd]. split; auto. exists (ys ++ [out]), false. rewrite X.
+          split; [rewrite <- app_assoc; cbn [app]; f_equal; exact (eq_sym P)|].
+          repeat split; auto; discriminate.
+        * destruct P as [P _]. destruct q; discriminate.
+        * eexists. split; [reflexivity|]. cbn [RInv fst snd]. split; auto. exists ys, false. rewrite X.
+          split; [f_equal; exact P|]. repeat split; auto; try discriminate.
+      + (* blocking mode: the future is only queued *)
+        rewrite (N2 eq_refl) in *. eexists. split; [reflexivity|]. cbn [RInv fst snd app map].
+        split; auto. exists ys, false. unfold rf_ref in *. rewrite map_app. cbn [map fst] in *.
+        rewrite app_nil_r in *. subst ys. repeat split; auto; discriminate.
+    - intros xs [fl [q s]] H. cbn [fin resolve_push fst snd].
+      destruct H as [[[F [ys [b0 [E I]]]]|[F [ys [E [I Q]]]]]|[b [F [ys [b0 [E [I _]]]]]]]; cbn [fst snd] in *; subst fl.
       + pose proof (@rf_empty_ok (S (length q)) q ys b0 s I) as Q.
-        destruct (rf_empty p false (S (length q)) q s) as [r [q' s']]. destruct Q as [ys' [b1 [E1 [I1 R1]]]].
+        destruct (rf_empty p w (S (length q)) q s) as [r [q' s']]. destruct Q as [ys' [b1 [E1 [I1 R1]]]].
         destruct r.
-        * destruct (R1 eq_refl) as [N1 N2]. subst q' b1. cbn [map] in E1. rewrite app_nil_r in E1.
-          rewrite E in E1. subst ys'. pose proof (Hf (rf_ref xs) s' (or_intror (ex_intro _ true I1))) as Q.
-          destruct (fin p s') as [r2 s2]. cbn [fst snd] in *. destruct r2; cbn [RInv fst snd]; auto.
-        * cbn [fst snd RInv]. left. exists ys', b1. split; auto. congruence.
-      + subst q. cbn [length rf_empty]. pose proof (Hrf _ _ I) as I1.
-        destruct (ready p s) as [r s1]. cbn [fst snd] in *. destruct r.
-        * cbn [q_poll]. pose proof (Hf (rf_ref xs) s1 (or_introl I1)) as Q.
-          destruct (fin p s1) as [r2 s2]. cbn [fst snd] in *. destruct r2; cbn [RInv fst snd]; auto.
-        * cbn [fst snd RInv]. right. auto.
-    - intros xs st [ys [b0 [E [I R]]]]. exists ys, b0. repeat split; auto; discriminate.
+        * destruct (R1 eq_refl) as [N1 N2]. subst b1.
+          pose proof (Hf ys' s' (or_intror (ex_intro _ true I1))) as Q.
+          destruct (fin p s') as [r2 s2]. cbn [fst snd] in *.
+          destruct r2; cbn [RInv fst snd]; [|right]; (split; auto; exists ys'; repeat split; auto; congruence).
+        * cbn [fst snd RInv]. left. split; auto. exists ys', b1. split; auto. congruence.
+      + pose proof (Hf ys s (or_introl I)) as Q2. destruct (fin p s) as [r2 s2]. cbn [fst snd] in *.
+        destruct r2; cbn [RInv fst snd]; [|right]; (split; auto; exists ys; repeat split; auto).
+      + pose proof (@rf_empty_ok (S (length q)) q ys b0 s I) as Q.
+        destruct (rf_empty p w (S (length q)) q s) as [r [q' s']]. destruct Q as [ys' [b1 [E1 [I1 R1]]]].
+        destruct r.
+        * destruct (R1 eq_refl) as [N1 N2]. subst b1.
+          pose proof (Hf ys' s' (or_intror (ex_intro _ true I1))) as Q.
+          destruct (fin p s') as [r2 s2]. cbn [fst snd] in *.
+          destruct r2; cbn [RInv fst snd]; [|right]; (split; auto; exists ys'; repeat split; auto; congruence).
+        * cbn [fst snd RInv]. left. split; auto. exists ys', b1. split; auto. congruence.
+    - intros xs st [F [ys [b0 [E [I R]]]]]. split; auto. exists ys, b0. repeat split; auto; discriminate.
   Qed.
 End ResolveStage.
 
@@ -518,7 +544,7 @@ Theorem accumulate_correct : forall A B S (accf : S -> A -> S) (outf : S -> list
     end.
 Proof.
   intros.
-  pose proof (acc_respects accf outf st0 (rf_base (@rec_respects_rf B))) as R.
+  pose proof (acc_respects accf outf st0 (@rec_respects B)) as R.
   pose proof (@respects_drive _ _ _ R fuel items (@Accumulating B S st0, mkds rs0 fs0 [])) as D.
   destruct (drive (accumulate_push accf outf (rec_push B)) fuel items (@Accumulating B S st0, mkds rs0 fs0 []) [])
     as [[o tr] s'].
@@ -528,21 +554,6 @@ Proof.
   - split; [discriminate|]. intros _. destruct D as [_ [W [Dn Sn]]]. unfold acc_ref in Sn. auto.
   - split; [discriminate|]. intro E. discriminate.
   - contradiction.
-Qed.
-
-Lemma filter_stage : forall A (p : push A) Inv (q : A -> bool),
-    respects p Inv -> respects (filter_push p q) (@SLInv _ _ p Inv (fun a => if q a then Some a else None)).
-Proof.
-  intros A p Inv q H.
-  refine (@sl_respects A A p Inv (fun a => if q a then Some a else None) (send (filter_push p q)) _ H).
-  intros a s. unfold filter_push. cbn [send]. destruct (q a); reflexivity.
-Qed.
-
-Lemma map_stage : forall A B (p : push B) Inv (f : A -> B),
-    respects p Inv -> respects (map_push p f) (@SLInv _ _ p Inv (fun a => Some (f a))).
-Proof.
-  intros A B p Inv f H.
-  exact (@sl_respects A B p Inv (fun a => Some (f a)) (send (map_push p f)) (fun _ _ => eq_refl) H).
 Qed.
 
 (* filter q -> fanout(map f -> recorder 0, fold -> recorder 1): the pipeline the correspondence
@@ -561,8 +572,8 @@ Theorem pipe_filter_fanout_fold_correct :
     end.
 Proof.
   intros.
-  pose proof (rf_base (map_stage_rf f (@rec_respects_rf B))) as R0.
-  pose proof (acc_respects comb (@fold_outf A) init (rf_base (@rec_respects_rf A))) as R1.
+  pose proof (map_stage f (@rec_respects B)) as R0.
+  pose proof (acc_respects comb (@fold_outf A) init (@rec_respects A)) as R1.
   pose proof (fanout_stage R0 R1) as R2.
   pose proof (filter_stage q R2) as R3.
   pose proof (@respects_drive _ _ _ R3 fuel items
@@ -587,11 +598,21 @@ Proof.
   - contradiction.
 Qed.
 
-(* With a subgraph waker ResolveFutures sends after the downstream's poll_finalize was called
-   (finding resolve_futures/start_send-after-poll_finalize-began): the strict protocol fails. *)
-Lemma resolve_waker_refuted :
-  match drive (resolve_push (rec_push N) true) 20 [(9%N, 2)] ([], mkds [true; false] [false] []) [] with
+(* HISTORY (fixed finding resolve_futures/start_send-after-poll_finalize-began): before /repo
+   5464049ec0b ResolveFutures with a subgraph waker (Model2.resolve_old_push) sent after the
+   downstream's poll_finalize had been called. *)
+Lemma resolve_old_waker_refuted :
+  match drive (resolve_old_push (rec_push N) true) 20 [(9%N, 2)] ([], mkds [true; false] [false] []) [] with
   | (o, _, s') => o = Finished /\ wf (lg (snd s')) = false /\
                   lg (snd s') = [EFin true; ERdy true; ESend 9%N; ERdy true; EFin false; ERdy true; ERdy false; ERdy true]
+  end.
+Proof. vm_compute. auto. Qed.
+
+(* the same witness on the code as it is now: nothing is sent after finalization began; the
+   future that resolved too late stays queued *)
+Lemma resolve_waker_witness_now :
+  match drive (resolve_push (rec_push N) true) 20 [(9%N, 2)] (false, ([], mkds [true; false] [false] [])) [] with
+  | (o, _, s') => o = Finished /\ wf (lg (snd (snd s'))) = true /\ sent (lg (snd (snd s'))) = [] /\
+                  map fst (fst (snd s')) = [9%N]
   end.
 Proof. vm_compute. auto. Qed.
